@@ -132,6 +132,17 @@ func RequestToDnsMsg(req *bfe_basic.Request) (*dns.Msg, error) {
 		return nil, err
 	}
 
+	// a query with more than one OPT RR is a format error (RFC 6891 Section 6.1.1)
+	optCount := 0
+	for _, rr := range dnsMsg.Extra {
+		if rr.Header().Rrtype == dns.TypeOPT {
+			optCount++
+		}
+	}
+	if optCount > 1 {
+		return nil, fmt.Errorf("dns message with %d OPT RRs", optCount)
+	}
+
 	setClientSubnet(req, dnsMsg)
 	return dnsMsg, nil
 }
